@@ -284,6 +284,9 @@ hs!(t_hs_a_zst16_u8_n2, t_hs_b_zst16_u8_n2, Zst16, u8, 2, Zst16, kani::any());
 hs!(t_hs_a_s1a64_s17a16_n1, t_hs_b_s1a64_s17a16_n1, S1a64, S17a16, 1, S1a64(bytes()), S17a16(bytes()));
 hs!(t_hs_a_u8_u32_n3, t_hs_b_u8_u32_n3, u8, u32, 3, kani::any(), kani::any());
 hs!(t_hs_a_u64_u8_n0, t_hs_b_u64_u8_n0, u64, u8, 0, kani::any(), kani::any());
+// empty slice whose element type is the most aligned thing in the block
+hs!(q_hs_a_u8_s5a16_n0, r0_hs_b_u8_s5a16_n0, u8, S5a16, 0, kani::any(), S5a16(bytes()));
+hs!(r1_hs_a_unit_s33a32_n0, q_hs_b_unit_s33a32_n0, (), S33a32, 0, (), S33a32(bytes()));
 
 // str / String / collect paths
 #[kani::proof]
@@ -381,6 +384,7 @@ macro_rules! lo {
 lo!(qp_layout_only_u8_u32, u8, u32, 1u8);
 lo!(qp_layout_only_s5a16_s12a4, S5a16, S12a4, S5a16([0; 5]));
 lo!(qp_layout_only_unit_u8, (), u8, ());
+lo!(qp_layout_only_u8_s5a16, u8, S5a16, 3u8);
 lo!(r0p_layout_only_s33a32_u64, S33a32, u64, S33a32([0; 33]));
 lo!(r1p_layout_only_hwl_s3a2, HeaderWithLength<u16>, S3a2, HeaderWithLength::new(1u16, 0));
 lo!(r2p_layout_only_u64_s17a16, u64, S17a16, 0u64);
